@@ -75,7 +75,7 @@ var encryptErrExceptions = []ErrException{
 
 func runC09(c *Ctx) {
 	p, r := c.P, c.R
-	r.Explanation = "Decides the fail-closed and secure-default clauses structurally: every return of every Node.Process implementation of the repository carries a nil event or a nil error (never both non-nil); inside the encrypt walk no fallible call's error is dropped and each is returned (itself or wrapped) on every path of its error branch, so it reaches Process's error result; rotation payloads are consumed; DefaultFilterOperations is the literal table {public: none, sensitive: encrypt, secret: redact}, a missing tag yields (unknown, unknown) and convertToOperation is the identity on the declared constants; the full decision table of filterValue over classification x operation (no mutation iff public or none; secret/sensitive -> encrypt | hmac | redact per operation, anything else an error; every other classification redacted) including which early exits skip protection; NoOperation never survives for sensitive/secret unless it came from the override map; the handler inventory of the three reflective dispatchers; and that struct values handed to the field walk are settable or replaced by an addressable copy. It does not decide that the reflective walk reaches every string of every payload shape (reflection is opaque), nor cryptographic secrecy. C09.tagpair: every on-the-spot classification is computed from the tag that belongs to the very value being filtered (field i / the same PointerTag, in classification,operation order; write-back pointer and tracking entry agree; bare payloads are secret). C09.skip: closed vocabulary of skip conditions in the walkers; C09.mark: keys are marked filtered only in the map that directly holds the value; a payload that is itself a map is tracked for the final sweep. C09.shortcut: the untouched early return is taken only if every class's effective operation is none. C09.nilelem: no reflect.Value method that panics on the zero Value is reachable from an Elem() without a validity test (nil elements and fields are skipped, not a crash). C09.mark key-unescaped: tracking and pointerstructure agree on the key a pointer names. C09.defaults snapshot/option verbatim: operation overrides reach the tag decision exactly as configured. C09.every: element walkers leave a handling loop early only with an error. C09.handlers taggable-field-unconditional: a Taggable field's tags are applied whatever options the walk got (F52); C09.nilelem covers MapIndex results (F51). C09.handlers taggable-then-generic: after filterTaggable a trackMap and a filterField call stay reachable within the same iteration. C09.recover: recover discipline over package encrypt."
+	r.Explanation = "Decides the fail-closed and secure-default clauses structurally: every return of every Node.Process implementation of the repository carries a nil event or a nil error (never both non-nil); inside the encrypt walk no fallible call's error is dropped and each is returned (itself or wrapped) on every path of its error branch, so it reaches Process's error result; rotation payloads are consumed; DefaultFilterOperations is the literal table {public: none, sensitive: encrypt, secret: redact}, a missing tag yields (unknown, unknown) and convertToOperation is the identity on the declared constants; the full decision table of filterValue over classification x operation (no mutation iff public or none; secret/sensitive -> encrypt | hmac | redact per operation, anything else an error; every other classification redacted) including which early exits skip protection; NoOperation never survives for sensitive/secret unless it came from the override map; the handler inventory of the three reflective dispatchers; and that struct values handed to the field walk are settable or replaced by an addressable copy. It does not decide that the reflective walk reaches every string of every payload shape (reflection is opaque), nor cryptographic secrecy. C09.tagpair: every on-the-spot classification is computed from the tag that belongs to the very value being filtered (field i / the same PointerTag, in classification,operation order; write-back pointer and tracking entry agree; bare payloads are secret). C09.skip: closed vocabulary of skip conditions in the walkers; C09.mark: keys are marked filtered only in the map that directly holds the value; a payload that is itself a map is tracked for the final sweep. C09.shortcut: the untouched early return is taken only if every class's effective operation is none. C09.nilelem: no reflect.Value method that panics on the zero Value is reachable from an Elem() without a validity test (nil elements and fields are skipped, not a crash). C09.mark key-unescaped: tracking and pointerstructure agree on the key a pointer names. C09.defaults snapshot/option verbatim: operation overrides reach the tag decision exactly as configured. C09.every: element walkers leave a handling loop early only with an error. C09.handlers taggable-field-unconditional: a Taggable field's tags are applied whatever options the walk got (F52); C09.nilelem covers MapIndex results (F51). C09.handlers taggable-then-generic: after filterTaggable a trackMap and a filterField call stay reachable within the same iteration. C09.recover: recover discipline over package encrypt. C09.mark skip-identity: the name the sweep looks a key up under is derived from the key's typed accessors only."
 	r.NotDecided = []string{"completeness of the reflective walk over all payload shapes (arm priority, pointer depth, arrays, shapes falling into the 'nothing reasonable yet' defaults)", "cryptographic secrecy of the wrapper"}
 	c.errControls()
 
@@ -113,6 +113,7 @@ func runC09(c *Ctx) {
 	c.ruleSweepUnknown("C09.value")
 	c.rulePointerKindGuard("C09.nilelem")
 	c.ruleTaggableTrackIdentity("C09.mark")
+	c.ruleSkipIdentity("C09.mark")
 	c.ruleTaggableFieldAlways("C09.handlers")
 	c.ruleTaggableThenGeneric("C09.handlers")
 	c.ruleRecoverResults("C09.recover", []string{PkgEncrypt}, false)
@@ -1026,7 +1027,7 @@ func (c *Ctx) ruleSettable() {
 
 func runC10(c *Ctx) {
 	p, r := c.P, c.R
-	r.Explanation = "Decides that every mutation performed by encrypt.Filter.Process is applied to the private deep copy: MUT is the set of functions of the package that can reach reflect.Value.Set*/SetMapIndex or pointerstructure.Set (computed from the call graph); in Process every call into MUT is dominated by the success edge of the deep-copy call and none of its arguments derives from the original event except through the copy's result; every return of the original event itself (nil payload, all-NoOperation configuration, zero payload) has a nil error and no MUT call before it; no function of the package stores into a field of a Process event parameter. That copystructure.Copy is deep for every shape, and the preservation of the output's shape/lengths/keys, are not decided (third-party semantics, reflection). C10.guards (what dominates the copy), C10.public (no mutation without excluding public), C10.sinks (closed vocabulary of reflective mutations), C10.resweep (a separately tracked nested map is not swept through its parent). C10.every: a tag whose key is absent does not end the walk over the tags (no early success from a handling loop). C10.tagpair / C10.public taggable-field-unconditional: see C09. C10.mut payload-bytes-readonly: no in-place write reaches a byte slice of the original payload."
+	r.Explanation = "Decides that every mutation performed by encrypt.Filter.Process is applied to the private deep copy: MUT is the set of functions of the package that can reach reflect.Value.Set*/SetMapIndex or pointerstructure.Set (computed from the call graph); in Process every call into MUT is dominated by the success edge of the deep-copy call and none of its arguments derives from the original event except through the copy's result; every return of the original event itself (nil payload, all-NoOperation configuration, zero payload) has a nil error and no MUT call before it; no function of the package stores into a field of a Process event parameter. That copystructure.Copy is deep for every shape, and the preservation of the output's shape/lengths/keys, are not decided (third-party semantics, reflection). C10.guards (what dominates the copy), C10.public (no mutation without excluding public), C10.sinks (closed vocabulary of reflective mutations), C10.resweep (a separately tracked nested map is not swept through its parent). C10.every: a tag whose key is absent does not end the walk over the tags (no early success from a handling loop). C10.tagpair / C10.public taggable-field-unconditional: see C09. C10.mut payload-bytes-readonly: no in-place write reaches a byte slice of the original payload. C10.mark skip-identity: as C09.mark."
 	r.NotDecided = []string{"copystructure.Copy being a deep copy for every payload shape (A4)", "preservation of dynamic type, container lengths and keys in the output (runtime values behind reflection)"}
 	proc := c.Fn("C10.anchor", PkgEncrypt, "Filter", "Process")
 	if proc == nil {
@@ -1320,6 +1321,7 @@ func runC10(c *Ctx) {
 	c.ruleMarkFiltered("C10.mark")
 	c.ruleEveryElement("C10.every")
 	c.ruleTaggableTrackIdentity("C10.mark")
+	c.ruleSkipIdentity("C10.mark")
 	c.ruleTaggableFieldAlways("C10.public")
 	c.ruleTagPairAs("C10.tagpair")
 
@@ -1375,7 +1377,7 @@ func mentionsOutside(t *Term, s string, cut ssa.Value) bool {
 
 func runC16(c *Ctx) {
 	p, r := c.P, c.R
-	r.Explanation = "Decides the key-selection and framing clauses: encrypt() encrypts exactly its data argument with the per-event wrapper option when present, else the filter's wrapper, and returns \"encrypted:\" + RawURL base64 of the marshalled blob; hmacSha256() derives a 32-byte key with NewDerivedReader(ctx, w, 32, salt, info) where w / salt / info are each the per-event option when non-nil else the filter's field (not swapped), MACs exactly its data argument with HMAC(SHA-256, key) and returns \"hmac-sha256:\" + RawURL base64; Process derives the per-event wrapper from NewEventWrapper(ctx, ef.Wrapper, EventId()) under the lock and hands the three per-event options to every value operation; all reads of Wrapper/HmacSalt/HmacInfo and the cryptographic call lie in one critical section, and Rotate / rotation payloads write them under the write lock (copying salt and info). Decrypt round-trip, HKDF and AEAD correctness are third-party semantics and not decided. Also the derivation shape: NewDerivedReader = LimitedReader{hkdf.New(sha256.New, checked key bytes of the wrapper argument, salt, info), lenLimit}; NewEventWrapper = aead wrapper keyed with ed25519.GenerateKey(NewDerivedReader(ctx, wrapper, >=32, f(eventId), g(eventId))) with every step checked, so the per-event key is a function of (wrapper key, event id) only. C16.forward: every walker hands its own options on. C16.event snapshot: an event with its own wrapper uses salt and info taken together with that wrapper. C16.raw: a value reached through a pointer tag is turned into bytes only by identity-preserving conversions. C16.atomic store-then-error: a rotation that returns an error has replaced none of Wrapper, HmacSalt, HmacInfo. C16.atomic rotation-applied: key material a rotation brings is stored on every successful path. C16.event snapshot-non-nil: the snapshot of the filter's salt / info handed on as the per-event option is non-nil even when the filter has none."
+	r.Explanation = "Decides the key-selection and framing clauses: encrypt() encrypts exactly its data argument with the per-event wrapper option when present, else the filter's wrapper, and returns \"encrypted:\" + RawURL base64 of the marshalled blob; hmacSha256() derives a 32-byte key with NewDerivedReader(ctx, w, 32, salt, info) where w / salt / info are each the per-event option when non-nil else the filter's field (not swapped), MACs exactly its data argument with HMAC(SHA-256, key) and returns \"hmac-sha256:\" + RawURL base64; Process derives the per-event wrapper from NewEventWrapper(ctx, ef.Wrapper, EventId()) under the lock and hands the three per-event options to every value operation; all reads of Wrapper/HmacSalt/HmacInfo and the cryptographic call lie in one critical section, and Rotate / rotation payloads write them under the write lock (copying salt and info). Decrypt round-trip, HKDF and AEAD correctness are third-party semantics and not decided. Also the derivation shape: NewDerivedReader = LimitedReader{hkdf.New(sha256.New, checked key bytes of the wrapper argument, salt, info), lenLimit}; NewEventWrapper = aead wrapper keyed with ed25519.GenerateKey(NewDerivedReader(ctx, wrapper, >=32, f(eventId), g(eventId))) with every step checked, so the per-event key is a function of (wrapper key, event id) only. C16.forward: every walker hands its own options on. C16.event snapshot: an event with its own wrapper uses salt and info taken together with that wrapper. C16.raw: a value reached through a pointer tag is turned into bytes only by identity-preserving conversions. C16.atomic store-then-error: a rotation that returns an error has replaced none of Wrapper, HmacSalt, HmacInfo. C16.atomic rotation-applied: key material a rotation brings is stored on every successful path. C16.event snapshot-non-nil: the snapshot of the filter's salt / info handed on as the per-event option is non-nil even when the filter has none. C16.derive key-handed-over: the slice handed to the AEAD wrapper is never written in place afterwards."
 	r.NotDecided = []string{"decrypt round-trip and HKDF/AEAD correctness (go-kms-wrapping, x/crypto)", "determinism of derived wrappers beyond the arguments passed"}
 	c.lockControls()
 	must := c.MustLocks()
@@ -1575,6 +1577,7 @@ func runC16(c *Ctx) {
 		c.ruleRejectLeavesState("C16.atomic", c.Fn("C16.atomic", PkgEncrypt, "Filter", name), "encrypt.Filter", []string{"Wrapper", "HmacSalt", "HmacInfo"})
 	}
 	c.ruleDerive()
+	c.ruleKeyHandedOver("C16.derive")
 	c.ruleOptionsForwarded()
 	c.ruleTaggedRaw("C16.raw")
 	c.ruleCopyLengths("C16.mac")
